@@ -162,6 +162,8 @@ class TrackerFamily(Family):
     def __init__(self, prop):
         self.prop = prop
         self.driver_args = ["tracker", prop]
+        if prop == "C16":
+            self.uses_gen = ("auditd.go",)
 
     def harness_line(self, c):
         return "%s %s %s" % (c["id"], c["fail"], ";".join(c["ops"]))
